@@ -176,7 +176,7 @@ func (g *gen) randPath(v any, maxlen int) gpath {
 			} else if kind < 13 {
 				i := r.Intn(len(x)+4) - len(x) - 1
 				if r.Chance(1, 30) {
-					i = 0x20000000 + r.Intn(2) - 1
+					i = 0x20000000 + r.Intn(2)
 				}
 				c = comp{kind: 'i', idx: i}
 				j := i
